@@ -75,6 +75,16 @@ def swapped_argument_sites(F, fn, fid):
                     if any(k[0] in fid and tg.endswith(k[1]) for k in SWAP_OK):
                         continue
                     out.append((t["ln"], "swap", f"`{tg.split('::')[-1]}` takes ({pn[i]}, {pn[j]}) at positions #{i + 1}, #{j + 1} but receives the variables ({an[i]}, {an[j]})"))
+    for bi, si, st in mir.stmts(fn):
+        rv = st["r"]
+        if rv["k"] != "agg" or not rv.get("fs") or st.get("x"):
+            continue
+        an = [_plain_name(fn, o) for o in rv["o"]]
+        fs = rv["fs"]
+        for i in range(len(fs)):
+            for j in range(i + 1, len(fs)):
+                if an[i] and an[j] and an[i] != an[j] and an[i] == fs[j] and an[j] == fs[i]:
+                    out.append((st.get("ln"), "swap", f"`{rv.get('n', '?').split('#')[-1]}` literal fills field `{fs[i]}` from the variable `{an[i]}` and field `{fs[j]}` from `{an[j]}`"))
     return out
 
 
